@@ -14,8 +14,10 @@ import (
 	"os/exec"
 	"path/filepath"
 	"regexp"
+	"runtime"
 	"sort"
 	"strings"
+	"sync/atomic"
 	"syscall"
 	"time"
 )
@@ -77,7 +79,7 @@ func supervise(prop, replayDir string, seed int64) int {
 		if len(skip) > 0 {
 			args = append(args, "-skip", strings.Join(skip, ","))
 		}
-		code, timedOut := runChild(args, 40*time.Minute)
+		code, timedOut := runChild(args, 6*time.Hour) // a wedged case is ended by the per-case watchdog long before
 		if !timedOut && (code == 0 || code == 1) {
 			if crashViolations > 0 {
 				return 1
@@ -99,7 +101,7 @@ func supervise(prop, replayDir string, seed int64) int {
 			b, _ := os.ReadFile(f)
 			_ = os.WriteFile(one, b, 0o644)
 			_ = os.Remove(f)
-			c2, to2 := runChild(append([]string{"-child", "-replay", one, "-quiet"}, passThrough(os.Args[1:])...), 40*time.Second)
+			c2, to2 := runChild(append([]string{"-child", "-replay", one, "-quiet"}, passThrough(os.Args[1:])...), scaled(40*time.Second))
 			if to2 || (c2 != 0 && c2 != 1) {
 				culprit = true
 				skip = append(skip, fmt.Sprint(idx))
@@ -168,4 +170,50 @@ func passThrough(args []string) []string {
 		}
 	}
 	return out
+}
+
+// ---------------------------------------------------------------- wall-clock limits under load
+
+var loadCache struct {
+	at     atomic.Int64
+	factor atomic.Int64 // x100
+}
+
+// loadFactor: how much slower than on an idle machine things may run right now — the larger of
+// the one-minute load average and the number of currently runnable tasks, per CPU (at least 1,
+// at most 40). Every wall-clock limit whose expiry is reported as a wedge, a deadlock or a
+// blocked call is multiplied by it, so that a machine shared with other checks (or anything
+// else) does not turn slowness into an alarm; on an idle machine the limits are as written.
+func loadFactor() float64 {
+	now := time.Now().UnixNano()
+	if at := loadCache.at.Load(); at != 0 && now-at < int64(time.Second) {
+		return float64(loadCache.factor.Load()) / 100
+	}
+	f := 1.0
+	if b, err := os.ReadFile("/proc/loadavg"); err == nil {
+		fs := strings.Fields(string(b))
+		if len(fs) >= 4 {
+			var l1 float64
+			var run, tot int
+			fmt.Sscanf(fs[0], "%g", &l1)
+			fmt.Sscanf(fs[3], "%d/%d", &run, &tot)
+			if float64(run) > l1 {
+				l1 = float64(run)
+			}
+			if g := l1 / float64(runtime.NumCPU()); g > f {
+				f = g
+			}
+		}
+	}
+	if f > 40 {
+		f = 40
+	}
+	loadCache.factor.Store(int64(f * 100))
+	loadCache.at.Store(now)
+	return f
+}
+
+// scaled: a wall-clock limit adjusted to the current load.
+func scaled(d time.Duration) time.Duration {
+	return time.Duration(float64(d) * loadFactor())
 }
